@@ -167,6 +167,15 @@ def fn(sysm, snap, model):
                    want=want, model=model)
         o.stats["prefix_exists:%s" % want] += 1
     o.evals += 1
+    # the same root read first through an incomplete database (the root node alone, as a proof holder has it): whatever that
+    # call does, it returns no foreign node and must not influence what the complete database answers next
+    try:
+        part = get_trie_nodes({root: db[root]}, root) if root in db else ()
+        if not set(part) <= encs:
+            o.viol("C13", "trie_nodes_wrong", "get_trie_nodes over an incomplete database returned something that is not a node of the trie",
+                   call="get_trie_nodes", kind="partial_db", model=model)
+    except Exception:  # noqa  (an incomplete database may be refused)
+        o.stats["trie_nodes_partial:raised"] += 1
     try:
         tn = get_trie_nodes(db, root)
         if set(tn) != encs:
